@@ -48,6 +48,9 @@ type FuncContract struct {
 	File     string
 	Line     int
 	Opts     map[string]string
+	PubCells []string // closures: captured variables written once by the token holder before close(PubChan), read only after it is closed
+	PubChan  string
+	PubToken string
 }
 
 // LocalMonitor: "localmonitor <lockvar> guards v1, v2"; "lghost g: sort"; "linv name: formula".
@@ -416,14 +419,19 @@ func ParseSpecFile(path, pkgPath string, ps *PkgSpec) error {
 			curO.Mode = rest
 		case "published":
 			// published f1, f2 by <chanfield> token <ghostmap>
-			if curO == nil {
-				return fail(l.n, "published outside object block")
+			if curO == nil && curF == nil {
+				return fail(l.n, "published outside object / func block")
 			}
 			fs, tail, ok := strings.Cut(rest, " by ")
 			if !ok {
 				return fail(l.n, "expected: published f1, f2 by <chan field> token <owned ghost map>")
 			}
 			ch, tok, _ := strings.Cut(tail, " token ")
+			if curO == nil {
+				curF.PubCells = append(curF.PubCells, strings.Fields(strings.ReplaceAll(fs, ",", " "))...)
+				curF.PubChan, curF.PubToken = strings.TrimSpace(ch), strings.TrimSpace(tok)
+				break
+			}
 			curO.Published = append(curO.Published, strings.Fields(strings.ReplaceAll(fs, ",", " "))...)
 			curO.PubChan, curO.PubToken = strings.TrimSpace(ch), strings.TrimSpace(tok)
 		case "owns":
